@@ -361,9 +361,52 @@ class MeasureApprox(MeasureSparse):
         return _cls("vectorizers.linear_optimal_transport", "ApproximateWassersteinVectorizer")(**cfg)
 
 
+class MeasureFormats(MeasureSparse):
+    """one estimator kind whose CONFIGURATION is the input format (sparse matrix / lists / generators) carrying the same measures,
+    fitted with the same explicit reference measure: the memo of the protocol is shared across the configurations, so equal
+    measures must get equal embeddings whatever format carries them (C08)"""
+    name = "Measure[LOT_exact, all formats, cosine]"
+    metric = "cosine"
+    configs = [dict(_fmt="spmatrix"), dict(_fmt="lil"), dict(_fmt="generator")]
+    knobs = []
+    no_arg_snapshot = True
+    _n = 1
+
+    def make(self):
+        fmt = self.cfg["_fmt"]
+        cfg = dict(n_components=2, random_state=self.seed % 1000, metric=self.metric)
+        if fmt != "spmatrix":
+            cfg["input_method"] = fmt
+        if fmt == "generator":
+            cfg.update(generator_vector_dim=D, generator_n_distributions=self._n)
+        return _cls("vectorizers.linear_optimal_transport", "WassersteinVectorizer")(**cfg)
+
+    def batch(self, ids, fitting=False):
+        fmt = self.cfg["_fmt"]
+        if fmt == "spmatrix":
+            X, kw = MeasureSparse.batch(self, ids, fitting)
+        else:
+            X, kw = MeasureLil.batch(self, ids, fitting)
+            self._n = len(X)
+            if fmt == "generator":
+                X, kw = (x for x in X), {"vectors": (v for v in kw["vectors"])}
+        if fitting:
+            r = np.random.RandomState(5)
+            kw["reference_vectors"] = self.PV.mean(axis=0) + r.normal(scale=0.3, size=(3, D))
+            kw["reference_distribution"] = np.full(3, 1.0 / 3.0)
+        return X, kw
+
+
+class MeasureFormatsEuclid(MeasureFormats):
+    name = "Measure[LOT_exact, all formats, euclidean]"
+    metric = "euclidean"
+
+
+FORMATS = {c.name: c for c in [MeasureFormats, MeasureFormatsEuclid]}
 MEASURE = {c.name: c for c in [MeasureLil, MeasureGen, MeasureSparse, MeasureSinkhornMethod, MeasureHeuristic, MeasureSinkhornVec,
                                MeasureApprox]}
 ALL.update(MEASURE)
 ROWWISE = [n for n in ROWWISE if not n.startswith("Measure")]
 ALL.update(FAR)
 ALL.update(SPECIAL)
+ALL.update(FORMATS)
